@@ -559,6 +559,13 @@ func c10VsString(vs []*ref.V) string {
 // yield nothing (`[.a, .b]`): the property claims agreement only for total traversals.
 var c10NonTotal = regexp.MustCompile(`\.[A-Za-z_"]|\[-?[0-9]+\]`)
 
+// recorded deviation: a context made of nothing but copies of the document root is "all documents" to eval-all
+const c10FindingRootCopies = "C10-eval-all-collects-copies-of-the-root-together"
+
+// the two templates whose context can consist of two copies of the root and nothing else (the second only when
+// the document is an empty container)
+var c10RootCopiesOnly = map[string]bool{"(., .) | [kind] | length": true, "(., .[], .) | [kind] | length": true}
+
 func c10GenEvalAll(r *rand.Rand) c10Case {
 	var t c10Tmpl
 	for {
@@ -566,6 +573,17 @@ func c10GenEvalAll(r *rand.Rand) c10Case {
 		if !c10NonTotal.MatchString(t.Expr) {
 			break
 		}
+	}
+	if r.IntN(4) == 0 {
+		// the document root FIRST and then nodes inside it as one context: only the root carries eval-all's
+		// "evaluate together" mark, the nodes behind it are still processed one by one
+		var rf []c10Tmpl
+		for _, u := range c10Tmpls {
+			if u.Op == "union-root-first" {
+				rf = append(rf, u)
+			}
+		}
+		t = rf[r.IntN(len(rf))]
 	}
 	c := c10Case{Family: "O4-evalall", Expr: t.Expr, tmpl: t}
 	c.NoSep = r.IntN(6) == 0
@@ -587,6 +605,9 @@ func (p c10) runEvalAll(x *c10Exec, c *c10Case) c10Verdict {
 	a := x.run(c.Expr, names, c10Flags{All: true, NoSep: c.NoSep}, stdin)
 	if e.TimedOut || a.TimedOut {
 		return c10Verdict{Verdict: mon.Inconclusive, Detail: "timed out"}
+	}
+	if !e.Failed && !a.Failed && c10RootCopiesOnly[c.Expr] && e.Stdout == "1\n1\n" && a.Stdout == "2\n" {
+		return c10Verdict{Verdict: mon.Finding, Finding: c10FindingRootCopies, Detail: fmt.Sprintf("`%s`: eval collects each copy of the root on its own (1, 1), eval-all collects the two copies together (2)", c.Expr)}
 	}
 	if e.Failed != a.Failed || (!e.Failed && e.Stdout != a.Stdout) {
 		return c10Verdict{Verdict: mon.Violated, Detail: fmt.Sprintf("[%s] eval and eval-all disagree on a single document\n%s\neval     (failed=%v): %s %s\neval-all (failed=%v): %s %s",
